@@ -30,7 +30,7 @@ import (
 )
 
 var instrumentedPkgs = []string{
-	"engine", "engine/pool", "engine/pubsub", "interpreter", "scope", "parser", "util", "stdlib", "config",
+	"engine", "engine/pool", "engine/pubsub", "interpreter", "scope", "parser", "util", "stdlib", "config", "cli/tool",
 }
 
 // files that stay untouched: stdlib_gen.go is a generated table of Go standard
